@@ -255,10 +255,13 @@ def sweeps_and_guard(index, ctx):
     F = r[1]
     mod = F.module
     # the VJP callable: nested function containing the autograd.grad call
-    nested = [f for f in index.functions.values() if f.parent is F]
-    vjp = [f for f in nested if calls_in(f.node, lambda c: norm_text(c.func).endswith("autograd.grad"))]
+    # (a closure of _differentiate, or a module-level function of the same module bound with functools.partial)
+    own = lambda f: [c for c in calls_in(f.node, lambda c: norm_text(c.func).endswith("autograd.grad"))
+                     if not any(c in list(ast.walk(g.node)) for g in index.functions.values() if g.parent is f)]
+    nested = [f for f in index.functions.values() if f.parent is F or (f.parent is None and f.module is mod and f.cls is None)]
+    vjp = [f for f in nested if own(f)]
     if len(vjp) != 1:
-        ctx.undecided("R2", "Jac._differentiate: VJP callable", f"expected one nested function calling torch.autograd.grad, found {len(vjp)}", F.loc())
+        ctx.undecided("R2", "Jac._differentiate: VJP callable", f"expected one function of {mod.name} (closure or module-level) calling torch.autograd.grad, found {len(vjp)}", F.loc())
         return
     vjp = vjp[0]
     g_cfg = cfg_of(vjp.node)
